@@ -457,6 +457,38 @@ def local(tag):
     return tag.split("}", 1)[1] if "}" in tag else tag
 
 
+VALUE_XML = re.compile(r"<value(?: [^<>]*)?(?:/>|(?<!/)>.*?</value>)", re.S)
+
+
+def norm_kids(kids):
+    """Children of a <value> as a reader sees them: line ends normalised, empty text nodes absent, adjacent text
+    nodes merged.  `["t", text]` | `["e", tag, [[k, v], …]]`."""
+    out = []
+    for k in kids:
+        if k[0] == "t":
+            t = k[1].replace("\r\n", "\n").replace("\r", "\n")
+            if not t:
+                continue
+            if out and out[-1][0] == "t":
+                out[-1] = ["t", out[-1][1] + t]
+            else:
+                out.append(["t", t])
+        else:
+            out.append(["e", k[1], sorted([list(a) for a in k[2]])])
+    return out
+
+
+def value_dom(v) -> dict:
+    """The DOM of one <value> of the implementation's XForm: attributes and children (text chunks and elements)."""
+    kids = [["t", v.text or ""]]
+    for c in v:
+        kids.append(["e", local(c.tag), [[local(k), x] for k, x in c.attrib.items()]])
+        if len(c) or (c.text or ""):
+            kids.append(["e", "#nested", []])  # an <output> never has content
+        kids.append(["t", c.tail or ""])
+    return {"attrs": sorted([local(k), x] for k, x in v.attrib.items()), "kids": norm_kids(kids)}
+
+
 def observe(xform: str) -> dict:
     """What C07 observes: translations (lang, default attribute, text ids in order), all
     jr:itext('…') attribute values in the body and on binds, all itextId values of choice items."""
@@ -474,7 +506,18 @@ def observe(xform: str) -> dict:
                 "ids": [x.get("id") for x in t.findall("x:text", NS)],
                 "forms": [[v.get("form") for v in x.findall("x:value", NS)] for x in t.findall("x:text", NS)],
                 "values": [["".join(v.itertext()) for v in x.findall("x:value", NS)] for x in t.findall("x:text", NS)],
+                "doms": [[value_dom(v) for v in x.findall("x:value", NS)] for x in t.findall("x:text", NS)],
             })
+    # the serialised <value> elements of the itext block, in document order, dealt out to the texts by their counts
+    m = re.search(r"<itext>.*?</itext>", xform, re.S)
+    raw = VALUE_XML.findall(m.group(0)) if m else []
+    if sum(len(f) for t in trans for f in t["forms"]) == len(raw):
+        it = iter(raw)
+        for t in trans:
+            t["valueXml"] = [[next(it) for _ in f] for f in t["forms"]]
+    else:
+        for t in trans:
+            t["valueXml"] = None
     body_refs, bind_refs, item_ids = [], [], []
     for el in body.iter():
         for k, v in el.attrib.items():
